@@ -570,6 +570,53 @@ def one_case(ctx, k, kind):
     ctx.sample(dict(tag, facets=F.tolist()[:8], n_returned=len(want), N=N), per_family=1)
 
 
+def default_tags(ctx, k):
+    """The names the library itself gives to the sides of a box-shaped mesh ('left', 'right', 'bottom', ...; the doctests'
+    `get_dofs('left')`): the name selects the boundary facets lying in that side - the same set as the index array of the
+    facets whose vertices all have the extreme coordinate, and the same DOFs - wherever the box lies and however it is graded."""
+    import skfem
+    rng = ctx.rng()
+    kind = ("tri", "quad", "tet", "hex")[k % 4]
+    d = 2 if kind in ("tri", "quad") else 3
+    off = [(0.0, 0.0, 0.0), (500000.0, 4649776.0, 1024.0), (-3.0e7, 0.0, 2.0 ** 23), (0.0, 4.6e6, 0.0)][(k // 4) % 4][:d]
+    graded = (k // 16) % 2 == 1
+
+    def axis(n, o):
+        w = rng.choice([0.25, 0.5, 1.0, 2.0], size=n) if not graded else 2.0 ** -np.arange(n)[::int(rng.choice([-1, 1]))]
+        return o + np.concatenate([[0.0], np.cumsum(w)]) * float(rng.choice([1.0, 10.0]))
+    axes = [axis(int(rng.integers(2, 5 if d == 3 else 8)), o) for o in off]
+    cls = {"tri": skfem.MeshTri, "quad": skfem.MeshQuad, "tet": skfem.MeshTet, "hex": skfem.MeshHex}[kind]
+    mesh = cls.init_tensor(*axes)
+    if (k // 32) % 2 == 1 and mesh.t.shape[1] <= 60:
+        mesh = mesh.refined(1)
+    mesh = mesh.with_defaults()
+    tagsd = mesh.boundaries or {}
+    P, F = np.asarray(mesh.p), np.asarray(mesh.facets)
+    bset = set(np.asarray(mesh.boundary_facets()).tolist())
+    names = {"left": (0, "min"), "right": (0, "max"), "bottom": (1, "min"), "top": (1, "max"), "front": (2, "min"), "back": (2, "max")}
+    elem = {"tri": skfem.ElementTriP2, "quad": skfem.ElementQuad2, "tet": skfem.ElementTetP2, "hex": skfem.ElementHex2}[kind]()
+    basis = skfem.CellBasis(mesh, elem)
+    tag = dict(mesh=type(mesh).__name__, offset=list(off), graded=graded, cells=int(mesh.t.shape[1]))
+    for name, (ax, which) in names.items():
+        if ax >= d:
+            continue
+        ext = P[ax].min() if which == "min" else P[ax].max()
+        own = np.array(sorted(f_ for f_ in bset if (P[ax, F[:, f_]] == ext).all()), dtype=np.int64)
+        got = np.sort(np.asarray(tagsd.get(name, np.zeros(0, dtype=np.int64))).astype(np.int64))
+        ctx.check("spellings-agree", np.array_equal(got, own), mech=f"default-tag-is-not-the-side:{name}", tagged=int(got.size),
+                  side=int(own.size), interior=int(len(set(got.tolist()) - bset)), **tag)
+        if name in tagsd and own.size:
+            d1 = set(basis.get_dofs(name).flatten().tolist())
+            d2 = set(basis.get_dofs(facets=own.astype(np.int32)).flatten().tolist())
+            ctx.check("spellings-agree", d1 == d2, mech=f"default-tag-dofs-differ-from-the-side:{name}", by_name=len(d1), by_index=len(d2), **tag)
+    ctx.reached("default-side-tags")
+    if any(off):
+        ctx.reached("default-side-tags:far-from-origin")
+    if graded:
+        ctx.reached("default-side-tags:graded")
+    ctx.nontrivial("default-tags", kind, bool(any(off)), graded)
+
+
 def trace_of(cr, comp, n):
     v = comp["value"]
     if cr.conforming == "value":
@@ -598,3 +645,5 @@ def ncases(kind, mq, mt):
 
 FAMILIES = [Family("dofs-" + kd, fam(kd), ncases(kd, mq, mt), ncases(kd, mq, mt), budget={"quick": 30, "thorough": 600})
             for kd, mq, mt in (("line", 1, 20), ("tri", 1, 24), ("quad", 1, 24), ("tet", 2, 30), ("hex", 2, 24), ("wedge", 1, 10))]
+FAMILIES.append(Family("default-tags", default_tags, 64, 640))
+REQUIRED_REACH += ["default-side-tags", "default-side-tags:far-from-origin", "default-side-tags:graded"]
